@@ -155,6 +155,7 @@ fn main() {
             // how often the mate hunt delivers each special shape (development aid)
             let n: u64 = a[2].parse().unwrap_or(1000);
             let (mut dbl, mut dbl_sliders, mut only_n, mut none) = (0u64, 0u64, 0u64, 0u64);
+            let mut capt_promo = 0u64;
             let mut shown = 0;
             for i in 0..n {
                 let mut t = tape::Tape::record(99, i);
@@ -179,6 +180,7 @@ fn main() {
                     }
                 }
                 let on = mates.iter().all(|&m| p.kind(m) == refmodel::MoveKind::PromoN);
+                capt_promo += mates.iter().all(|&m| m.promo != 0 && (m.from % 8) != (m.to % 8)) as u64;
                 dbl += d as u64;
                 dbl_sliders += ds as u64;
                 only_n += on as u64;
@@ -187,7 +189,7 @@ fn main() {
                     println!("{} mates={:?}", p.fen(), mates.iter().map(|m| m.text()).collect::<Vec<_>>());
                 }
             }
-            println!("of {n}: no mate {none}, double-check mate {dbl}, by two sliders {dbl_sliders}, only knight promotions mate {only_n}");
+            println!("of {n}: no mate {none}, double-check mate {dbl}, by two sliders {dbl_sliders}, only knight promotions mate {only_n}, only capturing promotions mate {capt_promo}");
             0
         }
         _ => usage(),
